@@ -42,6 +42,21 @@ macro_rules! corpus {
                 _ => None,
             }
         }
+        /// generated documentation of grammar `name` (`md`, `html`, anything else: manpage)
+        #[cfg(feature = "full")]
+        pub fn render_doc(name: &str, fmt: &str) -> Option<String> {
+            match name {
+                $(stringify!($name) => {
+                    let p = grammars::$name();
+                    Some(match fmt {
+                        "md" => p.render_markdown("app"),
+                        "html" => p.render_html("app"),
+                        _ => p.render_manpage("app", bpaf::doc::Section::General, None, None, None),
+                    })
+                })*
+                _ => None,
+            }
+        }
         /// `check_invariants` of every grammar (so the corpus stays inside the property's quantifier)
         pub fn check_all() {
             $(grammars::$name().check_invariants(false);)*
